@@ -270,21 +270,28 @@ def build_case(r, kind, tier):
         faults = [{"kind": "write_err", "path": "__stdout__", "at": 10 ** 9, "errno": "ENOSPC"}]
         expect = "ok"
     elif kind == "join_left":
-        left = fmt_text("dkvp", rect_records(r, r.choice([2, 5, 40])))
+        lrecs = rect_records(r, r.choice([2, 5, 40]))
+        sorted_mode = r.chance(0.55)
+        tail_keys = sorted_mode and r.chance(0.6)
+        if tail_keys:
+            # left records whose key sorts after every right key: the merge reaches right-EOF with these still unread
+            extra = rect_records(r, r.choice([1, 3, 8]))
+            lrecs = lrecs + [[(k, "zzz" + str(v)) if k == "a" else (k, v) for k, v in rec] for rec in extra]
+        left = fmt_text("dkvp", lrecs)
         files["left.dkvp"] = left
-        sub = r.choice(["missing", "read_err", "open_err"])
+        sub = r.choice(["missing", "read_err", "read_err", "read_err", "open_err"])
         if sub == "missing":
             del files["left.dkvp"]
         elif sub == "read_err":
             faults = [{"kind": "read_err", "path": "left.dkvp", "at": r.below(max(1, len(left))), "errno": "EIO"}]
         else:
             faults = [{"kind": "op_err", "op": "open", "path": "left.dkvp", "nth": 0, "errno": "EACCES"}]
-        verbs = [["join", "-j", "a", r.choice(["--ul", "--np", "-u", "--ur"]), "--prepipe" if False else "-i", "dkvp", "-f", "left.dkvp"]] + verbs[:1]
-        if r.chance(0.55):
+        verbs = [["join", "-j", "a"] + r.choice([["--ul"], ["--np"], ["--ur"], [], ["--np", "--ur"], ["--ul", "--ur"]]) + ["-i", "dkvp", "-f", "left.dkvp"]] + verbs[:1]
+        if sorted_mode:
             verbs[0].insert(1, "-s")
-            if faults and faults[0]["kind"] == "read_err" and r.chance(0.6):
+            if faults and faults[0]["kind"] == "read_err" and r.chance(0.7):
                 # sorted mode streams the left file: a fault near its end lies beyond where the right stream ends
-                faults[0]["at"] = max(0, len(left) - 1 - r.below(max(1, len(left) // 4)))
+                faults[0]["at"] = max(0, len(left) - 1 - r.below(max(1, len(left) // 4 if not tail_keys else 6)))
         # "a run that exits 0 has consumed all of its input": the left file is input, wherever the right stream ends
         case["must_fail_unfired"] = True
         if r.chance(0.3):
